@@ -302,7 +302,18 @@ func runRouterD2(r *Run, seedOffset int64) {
 		for i, p := range g.Pool {
 			d.pidx[p] = i + 1
 		}
-		d.run(pl.ops, pl.big)
+		crashed := false
+		r.guard(fmt.Sprintf("a recorded history (pool of %d patterns, %d operations so far)", len(g.Pool), len(d.events)), func() map[string]any {
+			crashed = true
+			last := d.events
+			if len(last) > 8 {
+				last = last[len(last)-8:]
+			}
+			return map[string]any{"kind": "trace", "last_events": last}
+		}, func() { d.run(pl.ops, pl.big) })
+		if crashed {
+			continue
+		}
 		var sb strings.Builder
 		for _, e := range d.events {
 			for _, k := range []string{"t", "s", "m", "p"} {
